@@ -5,6 +5,7 @@ import (
 	"fmt"
 	"math/big"
 	"reflect"
+	"strings"
 	"testing"
 
 	"pgregory.net/rapid"
@@ -673,6 +674,21 @@ func TestC06(t *testing.T) {
 			}
 		}
 	}
+	// declared sizes as arbitrary digit strings (leading zeros, up to 22 digits)
+	c06Size.rapidCheck(t, pickTier(600, 5000), func(rt *rapid.T) c06SizeCase {
+		n := rapid.SampledFrom([]int64{0, 1, 10, 1000, 4294967296, 9223372036854775807}).Draw(rt, "n")
+		digits := rapid.StringMatching(`0{0,3}[0-9]{1,22}`).Draw(rt, "digits")
+		if n > 0 && rapid.IntRange(0, 3).Draw(rt, "near") == 0 {
+			digits = rapid.StringMatching(`0{0,2}`).Draw(rt, "zeros") + fmt.Sprint(n+int64(rapid.IntRange(-2, 2).Draw(rt, "delta")))
+			if strings.HasPrefix(strings.TrimLeft(digits, "0"), "-") {
+				digits = "0"
+			}
+		}
+		return c06SizeCase{N: n, Size: digits}
+	})
+	if t.Failed() {
+		return
+	}
 	// chunk sizes near 2^31, 2^32, 2^63 and 2^64, first in the transaction or
 	// after accepted octets
 	for _, n := range []int64{1, 10, 1000} {
@@ -690,7 +706,7 @@ func TestC06(t *testing.T) {
 			}
 		}
 	}
-	c06Sub.rapidCheck(t, pickTier(2500, 20000), c06Gen)
+	c06Sub.rapidCheck(t, pickTier(2500, 60000), c06Gen)
 }
 
 func c06HugeSizes(first int) []string {
